@@ -110,6 +110,10 @@ class _OsProxy(object):
         r = self._alloc()
         return r, self._alloc()
 
+    def write(self, fd, data):
+        # the kernel side of a listener's stdin
+        return self._o.stdin_pipes[fd].write(data)
+
     def close(self, fd):
         if fd not in self._o.open_fds:
             raise OSError(errno.EBADF, 'bad file descriptor')
@@ -213,7 +217,8 @@ class FakeOptions(object):
         return self.reads.pop(fd, b'')
 
     def write(self, fd, data):
-        return self.stdin_pipes[fd].write(data)
+        # the REAL ServerOptions.write over the os proxy: its return value is what flush() slices by
+        return _real_options_call(self, 'write', fd, data)
 
     kill_fails = False
 
